@@ -38,16 +38,23 @@ def _judge(kind, later, label):
     s = later['second']
     if not bad and (s.get('exc') or s.get('value') != ref):
         bad.append(('unrecoverable', f"{label}: requesting the value again did not recover: {s.get('exc') or s.get('value')}"))
+    fo = later.get('forced') or {}
+    if not bad and (fo.get('exc') or fo.get('value') != ref):
+        bad.append(('later-forced-recompute', f"{label}: a later forced recomputation fails: {fo.get('exc') or fo.get('value')}"))
     return bad
 
 
 def _crash_job(job):
     """Crash before real op k (optionally with a torn prefix of the file opened by op k-1), then a later chain."""
     kind, phase, fault, pre, work, k, torn, exc_at = job
+    after = isinstance(k, tuple)
     d = faults.fresh(pre, work, f'crash_{os.getpid()}')
     try:
         try:
-            run_forked(faults.attempt, kind, phase, fault, str(d), k, exc_at)
+            if after:
+                run_forked(faults.attempt, kind, phase, fault, str(d), None, exc_at, k[1])
+            else:
+                run_forked(faults.attempt, kind, phase, fault, str(d), k, exc_at)
             died = False
         except ChildCrashed as e:
             died = os.WEXITSTATUS(e.status) == 77 if os.WIFEXITED(e.status) else False
@@ -61,7 +68,7 @@ def _crash_job(job):
                 with open(target, 'wb') as fh:
                     fh.write(data[:m])
         later = run_forked(faults.later_chain, kind, str(d))
-        label = f'{kind}/{phase}/{fault or "ok"}: process dies before file operation #{k}' + (
+        label = f'{kind}/{phase}/{fault or "ok"}: process dies ' + (f'right after file operation #{k[1]} (a rename)' if after else f'before file operation #{k}') + (
             f' with {torn[1]} bytes of {Path(torn[0]).suffix or "the file"} written' if torn else '')
         return job[:3] + (k, torn), _judge(kind, later, label), later
     finally:
@@ -140,6 +147,9 @@ def run(ctx):
             if k <= n:
                 jobs.append((kind, phase, fault, pre, work, k, None, None))
         for x in aops:
+            if x['op'] == 'MV':
+                jobs.append((kind, phase, fault, pre, work, ('after', x['real']), None, None))
+        for x in aops:
             if x['op'] == 'WB':
                 k = x['real']
                 size = rec['snap'].get(k)
@@ -150,6 +160,7 @@ def run(ctx):
     out = pmap(_crash_job, jobs)
     ctx.traces += len(jobs)
     ctx.extra['crash_points_replayed'] = sum(1 for j in jobs if j[6] is None)
+    ctx.extra['crash_right_after_rename_replayed'] = sum(1 for j in jobs if isinstance(j[5], tuple))
     ctx.extra['torn_writes_replayed'] = sum(1 for j in jobs if j[6] is not None)
     real_bad = 0
     for key, bad, later in out:
@@ -159,7 +170,7 @@ def run(ctx):
             if cls == 'harness':
                 raise MachineryError(text)
             real_bad += 1
-            how = 'torn-write' if torn else 'crash'
+            how = 'torn-write' if torn else ('crash-after-rename' if isinstance(k, tuple) else 'crash')
             findings.append((f'{kind}:{phase}:{fault or "ok"}:{how}:{cls}', text))
     ctx.extra['real_crash_points_with_bad_outcome'] = real_bad
     for sig, text in findings:
